@@ -19,3 +19,5 @@ open IrVerif.Scope
 #print axioms C17_ext_sharding_named
 #print axioms C17_ext_erasure_model
 #print axioms C17_ext_sharding_named_model
+#print axioms C17_ext_payload_fixpoint
+#print axioms C17_ir9_entries_inert
